@@ -13,6 +13,7 @@ TECHNIQUE = "deterministic simulation: sequential and concurrent request streams
 RULE = ("plans: loadbalance over 1-5 members (each its own observable fake upstream) x algorithm (rr, random, hashBy over request.source.host / request.target.host / "
         "request.listener / template concatenations) x request stream (sequential; concurrent bursts of k*n requests; 400 requests for random) x chaos and task-order "
         "perturbation; non-trivial = n >= 2 members and >= 2n requests; distinct = event-order hash")
+RULE_MORE = 'Later additions: nested balancers; the whole target as hash key in four spellings; one member whose upstream refuses every request (still selected in its turn, recorded, no other member involved).'
 LEVEL_TEXT = ("seeded exploration of the real loadbalance connector under task-level interleavings: only members are contacted, round-robin is balanced in every window and "
               "in concurrent bursts, equal hash keys map to one member, random reaches every member, and the connector recorded for the connection is the member used")
 LEVEL_NOTE = "single-threaded runtime: a non-atomic read-modify-write without an await point in between cannot be exposed (stated limit, DESIGN.md C17)"
